@@ -68,6 +68,11 @@ let enumerate (alphabet : char list) (len : int) (prefix : char list) (f : char 
     else List.iter (fun c -> go (c :: acc_rev) (k - 1)) alphabet in
   go (List.rev prefix) (len - List.length prefix)
 
+let toks_s (s : char list) : string =
+  let one ((((a, b), k), name), idx) =
+    Printf.sprintf "%d,%d,%s,%s,%s" (int_of_nat a) (int_of_nat b) (kind_s k) (hex name) (opt_s idx) in
+  String.concat ";" (List.map one (toks s))
+
 let answer (line : string) : unit =
   match String.split_on_char ' ' line with
   | ["P"; h] -> print_endline (res_s (parse_model_nocheck (unhex h)))
@@ -83,21 +88,23 @@ let answer (line : string) : unit =
                                               | PErr e -> ["!" ^ exn_name e]
                                               | PUnmodelled -> ["!U"])) in
     print_endline ("S:" ^ String.concat ";" (List.map one stmts) ^ "|" ^ (match err with None -> "-" | Some e -> exn_name e))
-  | ["T"; h] ->
-    let one ((((a, b), k), name), idx) =
-      Printf.sprintf "%d,%d,%s,%s,%s" (int_of_nat a) (int_of_nat b) (kind_s k) (hex name) (opt_s idx) in
-    print_endline (String.concat ";" (List.map one (toks (unhex h))))
+  | ["T"; h] -> print_endline (toks_s (unhex h))
   | "F" :: t :: args ->
     print_endline (match py_format (unhex t) (List.map unhex args) with
                    | FOk s -> "O:" ^ hex s | FFail -> "E" | FUnmodelled -> "U")
   | ["I"; h] -> print_endline (match py_int (unhex h) with Some z -> implode (string_of_Z z) | None -> "E")
   | ["K"; h] -> print_endline (if stmt_ok (unhex h) then "1" else "0")
-  | [("E" | "EV") as cmd; a; n; p] ->
+  | [("E" | "EV" | "EL" | "ELV" | "EK" | "EKV") as cmd; a; n; p] ->
+    (* E / EV: parse_model_nocheck; EL / ELV: the term lexer (toks); EK / EKV: stmt_ok — digest, or (…V) line by line *)
     let buf = Buffer.create 65536 in
     let count = ref 0 in
+    let line s = match cmd with
+      | "E" | "EV" -> res_s (parse_model_nocheck s)
+      | "EL" | "ELV" -> toks_s s
+      | _ -> if stmt_ok s then "1" else "0" in
     enumerate (unhex a) (int_of_string n) (unhex p)
-      (fun s -> incr count; Buffer.add_string buf (res_s (parse_model_nocheck s)); Buffer.add_char buf '\n');
-    if cmd = "EV" then (print_string (Buffer.contents buf); print_endline ".")
+      (fun s -> incr count; Buffer.add_string buf (line s); Buffer.add_char buf '\n');
+    if cmd = "EV" || cmd = "ELV" || cmd = "EKV" then (print_string (Buffer.contents buf); print_endline ".")
     else print_endline (Printf.sprintf "D:%s:%d" (Digest.to_hex (Digest.string (Buffer.contents buf))) !count)
   | _ -> print_endline "?"
 
